@@ -236,6 +236,24 @@ async fn apply(b: &Backend, cx: &Ctx, op: &[Json]) -> Json {
     }
 }
 
+/// Shape check of one protocol op (same acceptance as the Lean driver's `op?`).
+fn valid_op(op: &[Json], n_states: usize, allow_advance: bool) -> bool {
+    let name = op.first().and_then(|v| v.as_str()).unwrap_or("");
+    let nat = |i: usize| u(op, i).is_some();
+    match name {
+        "create" | "update" => nat(1) && nat(3) && u(op, 2).is_some_and(|s| (s as usize) < n_states),
+        "update_ttl" => nat(1) && nat(2),
+        "load" | "delete" => nat(1),
+        "change_id" => nat(1) && nat(2),
+        "delete_expired" => match op.get(1) {
+            None | Some(Json::Null) => true,
+            Some(v) => v.as_u64().is_some_and(|n| n > 0),
+        },
+        "advance" => allow_advance && nat(1),
+        _ => false,
+    }
+}
+
 fn ops_of(req: &Json, key: &str) -> Vec<Vec<Json>> {
     req.get(key)
         .and_then(|v| v.as_array())
@@ -295,6 +313,9 @@ async fn run_seq(req: &Json) -> Json {
     let phase = req.get("phase").and_then(|v| v.as_u64()).unwrap_or(0) as u128;
     let slack = req.get("slack").and_then(|v| v.as_u64()).unwrap_or(150) as u128;
     let ops = ops_of(req, "ops");
+    if !ops.iter().all(|o| valid_op(o, cx.states.len(), true)) {
+        return json!({"r": "bad-op"});
+    }
     let mut attempts = 0;
     loop {
         attempts += 1;
@@ -357,6 +378,11 @@ async fn run_conc(req: &Json, file_dir: Option<&str>) -> Json {
                 .collect()
         })
         .unwrap_or_default();
+    if !pre.iter().chain(post.iter()).all(|o| valid_op(o, cx.states.len(), true))
+        || !tasks.iter().flatten().all(|o| valid_op(o, cx.states.len(), false))
+    {
+        return json!({"r": "bad-op"});
+    }
     let mut attempts = 0;
     loop {
         attempts += 1;
@@ -378,6 +404,8 @@ async fn run_conc(req: &Json, file_dir: Option<&str>) -> Json {
                 barrier.wait().await;
                 let mut out = Vec::new();
                 for op in &t {
+                    // give the other tasks a chance to get in between two calls of this one
+                    tokio::task::yield_now().await;
                     let inv = STAMP.fetch_add(1, Ordering::SeqCst);
                     let r = apply(&b, &cx, op).await;
                     let resp = STAMP.fetch_add(1, Ordering::SeqCst);
